@@ -8,7 +8,7 @@ set_option linter.unusedSimpArgs false
 set_option linter.unusedVariables false
 
 namespace Anko
-variable [FOps]
+variable [FOps] [Prov]
 
 /-- close a `cur` goal: all induction hypotheses as facts, then `grind` does the case analysis -/
 macro "cur_grind" ih:ident : tactic => `(tactic| (
